@@ -185,16 +185,26 @@ def lean_extracted(run, pid, tier, lock, collect):
     except Exception as e:
         run.error('leanx: extraction / lean run failed: %r' % (e,))
         return
-    reports = {r['function']: r for r in res['reports']}
+    reports = {}
+    for r in res['reports']:                       # several variants of one function (qtype of modularity_und_sign): extracted iff all are
+        q = reports.get(r['function'])
+        if q is None:
+            reports[r['function']] = dict(r)
+        else:
+            q['defs'] = q.get('defs', []) + r.get('defs', [])
+            if r['status'] != 'extracted' and q['status'] == 'extracted':
+                q['status'], q['reason'] = r['status'], '%s: %s' % (r.get('target'), r.get('reason'))
     thms = {k: v for k, v in res['theorems'].items() if pid in v['pids']}
     if not thms:
         run.error('leanx: no theorem is annotated for %s in ExtractedProofs.lean' % pid)
         return
     relevant_fns = sorted({f for v in thms.values() for f in v['functions']})
     # a function that used to be extractable and is now refused: the deductive tier cannot decide -> checker error
+    refused = set()
     for f in relevant_fns:
         r = reports.get(f)
         if f in EXPECTED_EXTRACTABLE and (r is None or r['status'] != 'extracted'):
+            refused.add(f)
             run.error('leanx: extractor refuses %s (out of the subset): %s' % (f, (r or {}).get('reason', 'not a target')))
     if res['returncode'] not in (0, 1):
         run.error('leanx: lean did not run properly (rc=%s): %s' % (res['returncode'], res['raw_tail'][-300:]))
@@ -215,6 +225,8 @@ def lean_extracted(run, pid, tier, lock, collect):
         run.add_obligations([o])
         if v['status'] == 'discharged':
             continue
+        if any(f in refused for f in v['functions']):
+            continue        # the function left the subset: reported as a checker error above, neither a violation nor undecided
         what = 'Lean theorem %s about the extracted %s (checked on the unchanged tree) no longer checks: %s' % (name, fn, v['detail'][:600])
         if locked is not None and name in locked:
             wit = next((x for x in run.violations if any(x['key'].startswith(f + '/') for f in v['functions'])), None)
@@ -270,7 +282,7 @@ def main(argv=None):
         print(json.dumps({k: res[k] for k in ('theorems', 'seconds', 'lean_seconds', 'banned', 'other_errors', 'helper_errors')}, indent=1))
     else:
         for r in res['reports']:
-            print('extract %-22s %s %s' % (r['function'], r['status'], r.get('reason', '')))
+            print('extract %-26s %s %s' % (r.get('target', r['function']), r['status'], r.get('reason', '')))
         for n, v in sorted(res['theorems'].items(), key=lambda kv: (kv[1]['pids'], kv[0])):
             print('%-10s %-44s %-11s %s' % (','.join(v['pids']), n, v['status'], v['detail'][:160].replace('\n', ' ')))
         for k, v in res['helper_errors'].items():
